@@ -739,6 +739,7 @@ BOUNDARY_FIXED = [
     '%5<PRIu8>', '%-5.3<PRIxFAST16>', "%'<PRIx32>", "%'<PRIu32>", '%#<PRId64>', '%#<PRIo64>', '%1$<PRIdLEAST64>%2$<PRIuPTR>', '%<PRId32>%<prid32>',
     '% ', '%!', '%\n', '%\x00', '%é', '%d%', '%d%\x7f', '%d%\x1f', 'a%', '%d é %s \U0010ffff %c', '%d\x00%s', '\n%d\n', '100%',
     '100%% %d', '%5%d', '%d %', '%hh', '%l', '%1$', '%1', '%.', '%*', '%.*', '%<', '%<P',
+    '%\u0661d', '%1\u0661$d', '%\u0661$d', '%.\u0663d', '%*\u0661$d', '%\uff11d', '%\u00b2d', '%d\u0661', '%\uff04d', '%1\uff04d', '%\uff0ad',
 ]
 
 
@@ -765,21 +766,29 @@ MUT_CHARS = "%$*.0123456789dshlLqjztZcCSpnmxXfeguioaAEFG<>PRIMTLEAS #+-'\né\x00
 
 
 def rand_directive(rng, numbered, counter):
+    """one directive, valid with high probability (the validity knowledge used here only steers the generator)"""
     body = rng.choice(['d', 'd', 's', 's', 'u', 'ld', 'lu', 'c', 'f', 'x', 'zu', 'lld', 'hhd', 'p', 'g', 'Lf', 'n', 'ls', 'i', 'jd', 'td', 'qd',
-                       '<PRId32>', '<PRIu64>', '<PRIxMAX>', 'C', 'S', 'm', '%', 'e', 'X', 'o', 'hn', 'lc']) if rng.random() < 0.8 else \
-        rng.choice(LENGTHS) + rng.choice(CONVS)
-    fl = ''.join(rng.sample(FLAG_CHARS, rng.choice([0, 0, 0, 1, 1, 2, 3])))
+                       '<PRId32>', '<PRIu64>', '<PRIxMAX>', 'C', 'S', 'm', '%', 'e', 'X', 'o', 'hn', 'lc', 'f', 'hu', 'llx', 'Zu', 'Lg', 'a']) \
+        if rng.random() < 0.92 else rng.choice(LENGTHS) + rng.choice(CONVS)
+    cv = body[4] if body.startswith('<') else body[-1]
+    careful = rng.random() < 0.9
+    pool = [f for f in FLAG_CHARS if cv in R_FLAG_OK[f]] if careful else list(FLAG_CHARS)
+    k = min(len(pool), rng.choice([0, 0, 0, 0, 1, 1, 2, 3]))
+    fl = ''.join(rng.sample(pool, k))
 
     def num():
         if numbered:
             counter[0] += 1
-            return '%d$' % (counter[0] if rng.random() < 0.85 else rng.randrange(0, 6))
+            return '%d$' % (counter[0] if rng.random() < 0.9 else rng.randrange(0, 6))
         return ''
+
+    def magnitude(small):
+        return str(rng.choice(small) if rng.random() < 0.93 else rng.choice([2 ** 31 - 1, 2 ** 31, 4096, 4097]))
     r = rng.random()
-    w = '' if r < 0.55 else (str(rng.choice([1, 5, 10, 80, 2 ** 31 - 1, 2 ** 31])) if r < 0.8 else '*' + num())
+    w = '' if r < 0.55 or (careful and cv in 'n%') else (magnitude([1, 5, 10, 80]) if r < 0.85 else '*' + num())
     r = rng.random()
-    p = '' if r < 0.6 else ('.' + rng.choice(['', '0', '2', '10', str(2 ** 31 - 1), str(2 ** 31)]) if r < 0.85 else '.*' + num())
-    idx = num() if body not in ('%',) or rng.random() < 0.1 else ''
+    p = '' if r < 0.6 or (careful and cv not in R_PREC_OK) else ('.' + (magnitude([0, 2, 10]) if rng.random() < 0.8 else '') if r < 0.88 else '.*' + num())
+    idx = num() if (cv != '%' or not careful) else ''
     return '%' + idx + fl + w + p + body
 
 
@@ -868,7 +877,19 @@ def run_tokens(ctx, cases, sizes):
         last = r.rsplit(' ', 1)[-1][:1] if r else 'empty'
         ctx.count('tokens:' + ('bad-position' if last == 'B' else ('crash' if r.startswith('crash') else 'complete')))
         if m != r:
-            ctx.disagree('ctokens', dict(_show(s), origin=o), m[:400], r[:400])
+            ctx.disagree('ctokens', dict(origin=o, **_show(s)), m[:400], r[:400])
+
+
+_SAMPLED = set()
+
+
+def nargs_of(r):
+    """number of arguments in a canonical `ok ...` line, -1 for a rejection"""
+    if not r.startswith('ok '):
+        return -1
+    sec = r.split(' ')
+    a = sec[2][2:] if len(sec) > 2 else ''
+    return 0 if not a else a.count('|') + 1
 
 
 def run_fmtc(ctx, maxd, cases, sizes, seen):
@@ -888,8 +909,7 @@ def run_fmtc(ctx, maxd, cases, sizes, seen):
         sizes['2:' + key] = sizes.get('2:' + key, 0) + 1
         if r.startswith('ok '):
             sec = r.split(' ')
-            a = sec[2][2:] if len(sec) > 2 else ''
-            nargs = 0 if not a else a.count('|') + 1
+            nargs = nargs_of(r)
             ctx.count('outcome:accepted')
             ctx.count('args:%s' % (nargs if nargs <= 4 else ('5-16' if nargs <= 16 else '>16')))
             if len(sec) > 3 and sec[3] != 'W=':
@@ -903,24 +923,47 @@ def run_fmtc(ctx, maxd, cases, sizes, seen):
             ctx.count('outcome:' + r.split(' ')[0])
             ctx.count('error:' + r[:40])
         if m != r:
-            ctx.disagree('fmtc', dict(_show(s), origin=o), m[:600], r[:600])
+            ctx.disagree('fmtc', dict(origin=o, **_show(s)), m[:600], r[:600])
+        # evidence samples: one accepted (with arguments) and one rejected input per origin, up to 10
+        tag = (key, r[:2])
+        if len(ctx.samples) < 10 and tag not in _SAMPLED and len(s) <= 80 and (nargs_of(r) != 0):
+            _SAMPLED.add(tag)
+            ctx.samples.append({'s': s, 'origin': o, 'result': r[:160]})
     verdicts = common.pmap('harness.c11', 'oracle_fmtc', strs, per_case_timeout=120)
     ctx.evaluations += len(verdicts)
     for s, v in zip(strs, verdicts):
         if not isinstance(v, tuple):
-            ctx.fail('oracle-' + str(v)[:30].replace(' ', '-'), dict(_show(s), origin=d[s]), 'the oracle did not finish on this input: %s' % (v,))
+            ctx.fail('oracle-' + str(v)[:30].replace(' ', '-'), dict(origin=d[s], **_show(s)), 'the oracle did not finish on this input: %s' % (v,))
             continue
         kind, what, gstat, acc = v
         ctx.count('glibc:' + gstat)
         if kind is not None:
-            ctx.fail(kind, dict(_show(s), origin=d[s]), what)
+            ctx.fail(kind, dict(origin=d[s], **_show(s)), what)
     if len(seen) < 3000000:
         seen.update(strs)
-    if len(ctx.samples) < 10:
-        step = max(1, len(strs) // 3)
-        for s in strs[::step][:2]:
-            if len(ctx.samples) < 10:
-                ctx.samples.append(dict(_show(s), origin=d[s]))
+
+
+def replay(ctx, path):
+    """check.py C11 --replay <file>: re-run the inputs of a replay file through model, implementation and oracle"""
+    obj = json.load(open(path))
+    entries = obj.get('failing_inputs') or obj.get('correspondences_broken') or []
+    maxd = L.maxdigits()
+    strs = []
+    for e in entries:
+        inp = e.get('input', {})
+        if 's' in inp:
+            strs.append(inp['s'])
+        elif str(inp.get('origin', '')).startswith('expr:') and inp['origin'][5:] in BOUNDARY_EXPRS:
+            strs.append(eval(inp['origin'][5:]))   # noqa: one of the constants above
+    bad = 0
+    for s in strs:
+        m = common.run_driver(['fmtc %d %s' % (maxd, enc_str(s))])[0]
+        r = impl_fmtc(s)
+        v = oracle_fmtc(s)
+        print(json.dumps(_show(s)), '\n  model:', m[:300], '\n  impl: ', r[:300], '\n  oracle:', v)
+        bad += (m != r) or (v[0] is not None)
+    print('%d of %d replayed inputs still fail' % (bad, len(strs)))
+    return 1 if bad else 0
 
 
 def check(ctx):
